@@ -52,7 +52,12 @@ def pieces():
                    rules=ovr + TOK, name='Integer: dispatchers add .. rpow [one verbatim region of the class body]')]
     rdisp = [Piece(RH, r'^    RCP<const Number> add\(const Number &other\) const override', region_end=r'RCP<const Number> rpow\(const Number &other\) const override\s*\{[\s\S]*?\n    \};',
                    rules=ovr + TOK, name='Rational: dispatchers add .. rpow [one verbatim region of the class body]')]
-    return {'glue.inc': glue, 'integer_inline.inc': iin, 'rational_inline.inc': rin, 'integer_dispatch.inc': idisp, 'rational_dispatch.inc': rdisp}
+    CH = 'symengine/complex.h'
+    cin = [Piece(CH, r'^    inline RCP<const Number> addcomp\(const Complex &other\) const', region_end=r'inline RCP<const Number> rdivcomp\(const Integer &other\) const\s*\{[\s\S]*?\n    \}\n',
+                 rules=TOK, name='Complex: addcomp .. rdivcomp [one verbatim region of the class body]'),
+           Piece(CH, r'^    RCP<const Number> add\(const Number &other\) const override', region_end=r'RCP<const Number> rdiv\(const Number &other\) const override\s*\{[\s\S]*?\n    \};?',
+                 rules=ovr + TOK, name='Complex: dispatchers add .. rdiv [one verbatim region of the class body]')]
+    return {'glue.inc': glue, 'integer_inline.inc': iin, 'rational_inline.inc': rin, 'integer_dispatch.inc': idisp, 'rational_dispatch.inc': rdisp, 'complex_inline.inc': cin}
 
 HS = ['h_divint', 'h_powint', 'h_from_two_ints', 'h_from_mpq', 'h_rat_ops', 'h_powrat', 'h_complex_from']
 HS_ABS = HS + ['h_powcomp', 'h_dispatch']
@@ -72,6 +77,9 @@ def units(tier):
                 [Entry(h, timeout=600, unwindset=uw, unwind=4, mem_gb=6,
                        bounds="operands in [-12,12] (integers), num in [-4,4] / den in [2,4] (rationals), |exponent| <= 4; exact machine arithmetic, no overflow in range") for h in HS],
                 route='B', trusted=absu.trusted, assumptions=absu.assumptions)
+    for k, nm in enumerate(('add', 'sub', 'mul', 'div', 'rsub', 'rdiv')):
+        conc.entries.append(Entry('h_complex_ops', defines={'COMPLEX_OP': k}, timeout=1200, unwindset=uw, unwind=4, mem_gb=6, label='h_complex_ops_' + nm,
+                                  bounds="Gaussian rationals with |num| <= 2, den <= 2; other operand Integer/Rational/Complex of the same size; exact table arithmetic"))
     for k, nm in enumerate(('add', 'sub', 'mul', 'div', 'pow')):
         conc.entries.append(Entry('h_dispatch', defines={'DISPATCH_OP': k}, timeout=900, unwindset=uw, unwind=4, mem_gb=6, label='h_dispatch_' + nm,
                                   bounds="Integer/Rational operands with |num| <= 4, den <= 4, exponent |e| <= 3; exact machine arithmetic"))
